@@ -101,13 +101,54 @@ NC_PARTIAL = {"encoder_config": {"hidden_size": [8]}}          # what a user typ
 TOL = 1e-4
 
 
-def tag(t, a, e):
-    return t * 64 + a * 8 + e + 1
+def tag(t, a, e, ts=64):
+    return t * ts + a * 8 + e + 1
 
 
-def untag(x):
+def untag(x, ts=64):
     x -= 1
-    return x // 64, (x % 64) // 8, x % 8
+    return x // ts, (x % ts) // 8, x % 8
+
+
+def id_groups(ids):
+    """agent id -> (group index, position inside the group); groups (homogeneous ids = id without its last _suffix, as
+    get_homo_id does) are numbered by first appearance in agent_ids, members by their order in agent_ids"""
+    homos, out, count = [], {}, {}
+    for aid in ids:
+        h = aid.rsplit("_", 1)[0]
+        if h not in homos:
+            homos.append(h)
+        gi = homos.index(h)
+        out[aid] = (gi, count.get(gi, 0))
+        count[gi] = count.get(gi, 0) + 1
+    return out
+
+
+SUFFIX_STYLES = [
+    lambda n: [str(i) for i in range(n)],                                   # agent_0, agent_1, ... (sorted)
+    lambda n: [str(i) for i in reversed(range(n))],                         # agent_2, agent_1, agent_0
+    lambda n: ["zeta", "alpha", "mid", "beta", "omega", "b", "a", "k", "c", "y", "x", "m", "d"][:n],   # not alphabetical
+    lambda n: [str(i) for i in ([1, 0] + list(range(2, n)))[:n]] if n > 1 else ["0"],
+]
+
+
+def make_ids(rng, nA):
+    """agent_ids for the groups (sizes nA): unsorted suffixes, the two groups possibly interleaved ('agent' first)"""
+    names = ["agent", "other"]
+    per = [[f"{names[gi]}_{sfx}" for sfx in rng.choice(SUFFIX_STYLES)(n)] for gi, n in enumerate(nA)]
+    if len(per) == 1:
+        return per[0]
+    ids = [per[0][0]]
+    rest = [(0, x) for x in per[0][1:]] + [(1, x) for x in per[1]]
+    if rng.random() < 0.5:          # interleave, keeping the order inside each group
+        pos = {0: 1, 1: 0}
+        seq = [0] * (len(per[0]) - 1) + [1] * len(per[1])
+        rng.shuffle(seq)
+        for gi in seq:
+            ids.append(per[gi][pos[gi]]); pos[gi] += 1
+    else:
+        ids += [x for _, x in rest]
+    return ids
 
 
 # ------------------------------------------------------------------ spaces and tagged data
@@ -257,6 +298,13 @@ class C17(vlib.Driver):
         c = {"algo": algo, "T": T, "E": E, "vec": vec, "exact": exact, "gamma": g, "lam": l, "obs": obs, "act": act,
              "net": net, "share": share, "bias": rng.choice([0.0, 0.5, -1.0, 2.0]), "groups": groups,
              "order": rng.randint(0, 1), "leak_seed": rng.randint(0, 10 ** 6) if leak else None}
+        if algo == "ippo":
+            nA = [g["A"] for g in groups]
+            c["ids"] = make_ids(rng, nA)                       # order in agent_ids: not sorted in most cases
+            c["dict_order"] = list(c["ids"])                   # insertion order of every per-agent dict handed to learn()
+            if rng.random() < 0.5:
+                rng.shuffle(c["dict_order"])
+            c["ts"] = 128 if max(nA) > 8 else 64
         return c
 
     def generate(self, tier, rng):
@@ -275,6 +323,12 @@ class C17(vlib.Driver):
             cases.append(self.mk_case(rng, "ppo", T, E, [self.rand_group(rng, T, 1, E, True)]))
         for T, A, E in itertools.product(range(1, 4), range(1, 4), range(1, 4)):
             cases.append(self.mk_case(rng, "ippo", T, E, [self.rand_group(rng, T, A, E, True)]))
+        # (b2) many agents sharing one policy: "agent_10" sorts before "agent_2"
+        for A in ([11] if quick else [11, 12, 13]):
+            for T in (1, 2):
+                cases.append(self.mk_case(rng, "ippo", T, 1, [self.rand_group(rng, T, A, 1, True)]))
+                cases[-1]["ids"] = [f"agent_{i}" for i in range(A)]
+                cases[-1]["dict_order"] = list(cases[-1]["ids"])
         # (c) seeded
         n_ppo, n_ippo = (150, 200) if quick else (2500, 3500)
         for _ in range(n_ppo):
@@ -314,7 +368,7 @@ class C17(vlib.Driver):
     # ---------- implementation
     def agent_for(self, case):
         nA = [g["A"] for g in case["groups"]]
-        k = (case["algo"], case["obs"], case["act"], case["net"], case["share"], tuple(nA), case["order"])
+        k = (case["algo"], case["obs"], case["act"], case["net"], case["share"], tuple(nA), case["order"], tuple(case.get("ids") or ()))
         if k in self._agents:
             return self._agents[k]
         nc = NC_PLAIN if case["net"] == "plain" else NC_PARTIAL
@@ -327,9 +381,14 @@ class C17(vlib.Driver):
             ids = None
         else:
             names = ["agent", "other"]
-            ids = [f"{names[gi]}_{a}" for gi, n in enumerate(nA) for a in range(n)]
-            if case["order"] == 1 and len(nA) > 1:      # interleave the two groups in agent_ids
-                ids = sorted(ids, key=lambda s: (int(s.split("_")[1]), s))
+            ids = case.get("ids")
+            if ids is None:                             # cases written before agent ids became part of the case
+                ids = [f"{names[gi]}_{a}" for gi, n in enumerate(nA) for a in range(n)]
+                if case["order"] == 1 and len(nA) > 1:      # interleave the two groups in agent_ids
+                    ids = sorted(ids, key=lambda s: (int(s.split("_")[1]), s))
+            gm = id_groups(ids)
+            assert sorted(set(g for g, _ in gm.values())) == list(range(len(nA))) and \
+                all(sum(1 for g, _ in gm.values() if g == gi) == n for gi, n in enumerate(nA)), (ids, nA)
             ag = IPPO([obs_space(case["obs"])] * len(ids), [act_space(case["act"])] * len(ids), ids, net_config=nc,
                       batch_size=1, update_epochs=1)
         self._agents[k] = (ag, ids)
@@ -354,9 +413,10 @@ class C17(vlib.Driver):
         """the tuple handed to learn(); data = groups with R,V,D,nv,nd"""
         T, E, vec = case["T"], case["E"], case["vec"]
         ok, ak = case["obs"], case["act"]
+        ts = case.get("ts", 64)
 
         def per_agent(a, g):
-            tg = lambda t: [tag(t, a, e) for e in range(E)]
+            tg = lambda t: [tag(t, a, e, ts) for e in range(E)]
             sq = (lambda x: x) if vec else (lambda x: ({k: v[0] for k, v in x.items()} if isinstance(x, dict) else
                                                    (tuple(v[0] for v in x) if isinstance(x, tuple) else x[0])))
             st = [sq(mk_obs(ok, tg(t))) for t in range(T)]
@@ -373,10 +433,10 @@ class C17(vlib.Driver):
         if case["algo"] == "ppo":
             return per_agent(0, data[0])
         out = [dict() for _ in range(8)]
-        for aid in ids:
-            name, a = aid.split("_")
-            gi = 0 if name == "agent" else 1
-            for d, x in zip(out, per_agent(int(a), data[gi])):
+        gm = id_groups(ids)
+        for aid in (case.get("dict_order") or ids):     # insertion order of the dicts, independent of agent_ids
+            gi, a = gm[aid]
+            for d, x in zip(out, per_agent(a, data[gi])):
                 d[aid] = x
         return tuple(out)
 
@@ -566,7 +626,7 @@ class C17(vlib.Driver):
                              f"{qm(gr['D'][0])} {ql(nv[0])} {ql(gr['nd'][0])} {tol} {rows(ob['rows'])}")
             else:
                 q3 = lambda x: "[" + "; ".join(qm(m) for m in x) + "]"
-                terms.append(f"check_ippo {'true' if pinned else 'false'} {gr['A']} {E} {T} {g} {l} {q3(gr['R'])} {q3(gr['V'])} "
+                terms.append(f"check_ippo_s {case.get('ts', 64)} {'true' if pinned else 'false'} {gr['A']} {E} {T} {g} {l} {q3(gr['R'])} {q3(gr['V'])} "
                              f"{q3(gr['D'])} {qm(nv)} {qm(gr['nd'])} {tol} {rows(ob['rows'])}")
         return "(" + " && ".join(f"({t})" for t in terms) + ")%bool"
 
@@ -635,7 +695,7 @@ class C17(vlib.Driver):
             for r, (o, ac, lp, adv, ret, val) in enumerate(rows):
                 if not (o == ac == lp) or o == BAD or o < 1:
                     bad_tags.append((r, o, ac, lp)); continue
-                t, a, e = untag(o)
+                t, a, e = untag(o, case.get("ts", 64))
                 if not (t < T and a < A and e < E) or (t, a, e) in seen:
                     bad_tags.append((r, o, ac, lp)); continue
                 seen.add((t, a, e))
@@ -692,7 +752,7 @@ class C17(vlib.Driver):
                 r1, r2 = by_tag(obs["groups"][gi]["rows"]), by_tag(lk["groups"][gi]["rows"])
                 diff = []
                 for t in range(k + 1):
-                    x, y = r1.get(tag(t, a, e)), r2.get(tag(t, a, e))
+                    x, y = r1.get(tag(t, a, e, case.get("ts", 64))), r2.get(tag(t, a, e, case.get("ts", 64)))
                     if x is None or y is None or x[3] != y[3] or x[4] != y[4]:
                         diff.append((t, x, y))
                 if diff:
@@ -742,6 +802,17 @@ class C17(vlib.Driver):
             labs.append("learn-raised")
         if A >= 2 and case["T"] >= 2:
             labs.append("ordering-sensitive(A>=2,T>=2)")
+        if case["algo"] == "ippo" and case.get("ids"):
+            ids = case["ids"]
+            per = {}
+            for x in ids:
+                per.setdefault(x.rsplit("_", 1)[0], []).append(x)
+            if any(v != sorted(v) for v in per.values()):
+                labs.append("agent-ids-not-in-sorted-order")
+            if case.get("dict_order") != ids:
+                labs.append("dict-insertion-order!=agent_ids")
+            if A > 8:
+                labs.append("A>8")
         if case["algo"] == "ppo" and case["E"] >= 2 and case["T"] >= 2:
             labs.append("ordering-sensitive(E>=2,T>=2)")
         return labs
